@@ -88,7 +88,16 @@ def gen(rng, cid, tier, plugin=None, pid0=True):
     linger = {}
     if rng.random() < 0.2 and allpids:
         linger[str(rng.choice(allpids))] = rng.randint(1, 3)
-    scn = KG.base_scn(cid, cgs, KG.kill_config(plugin, args), ticks=ticks, kill=kill, linger=linger)
+    hooks, hspec, extra = None, {}, None
+    if rng.random() < 0.2:
+        # a prekill hook that matches every cgroup and needs 1-3 more ticks: the victim is picked on one tick and killed on a
+        # later one, from what was saved in between
+        hooks = [{"name": "v_hook", "args": {"id": "h0", "cgroup": "/"}}]
+        hspec = {"h0": [{"polls": rng.choice([1, 1, 2, 3])} for _ in range(8)]}
+        extra = {"prekill_hook_timeout": "60"}
+        for _ in range(3):
+            ticks.append({"step_ns": 10**9, "ops": []})
+    scn = KG.base_scn(cid, cgs, KG.kill_config(plugin, args, extra, hooks=hooks), ticks=ticks, kill=kill, linger=linger, hooks=hspec)
     if rng.random() < 0.15:
         scn["dtype_unknown"] = True  # children discovered through the lstat fallback
     if rng.random() < 0.1:
@@ -182,6 +191,18 @@ def judge(case, results):
         v.bad("crash:" + cr[0], cr[1], cr[2])
         return v
     nk, ni = containment(v, scn, res, case.meta["args"])
+    if scn.get("hooks"):
+        # the hook was fired for the cgroup oomd selected: what it then marks and signals is that cgroup, not another one
+        pending = None
+        for e in res.events:
+            if e.get("ev") == "hook" and e["m"] == "fire":
+                pending = e["victim"]
+                v.count("hook_fires")
+            elif e.get("ev") == "setxattr" and e["name"] == "trusted.oomd_kill_uuid" and pending is not None:
+                vic = KT.cgrel(e["path"])
+                if vic != pending:
+                    v.bad("victim-differs-from-selected", "after-prekill-hook", "tick %s: the prekill hook was fired for %s, then %s was marked and killed" % (e.get("tick"), pending, vic))
+                pending = None
     v.count("kill_or_cgroupkill_events", nk)
     v.count("invocation_ticks", ni)
     v.count("victims_removed_mid_kill", sum(1 for e in res.events if e.get("ev") == "vanish"))
